@@ -40,6 +40,10 @@ STRUCT = {
     # single-agent wells next to combinations that use the highest treatment id: (a, c) and (b, control) are different conditions
     "S3": [("s1", "a", 1.0, "c", 1.0, "p0"), ("s1", "b", 1.0, "", 0.0, "p1"), ("s1", "a", 1.0, "b", 1.0, "p2"),
            ("s1", "", 0.0, "c", 1.0, "p1"), ("s2", "b", 1.0, "c", 1.0, "p0"), ("s2", "c", 1.0, "", 0.0, "p2")],
+    # every plate holds a condition that no other plate holds (a batch plate left out of the union is then missed), next to
+    # conditions shared between plates
+    "U4": [("s1", "a", 1.0, "b", 1.0, "p0"), ("s1", "c", 1.0, "d", 1.0, "p0"), ("s1", "a", 1.0, "c", 1.0, "p1"), ("s1", "c", 1.0, "d", 1.0, "p1"),
+           ("s2", "a", 1.0, "d", 1.0, "p2"), ("s2", "b", 1.0, "d", 1.0, "p2"), ("s2", "b", 1.0, "c", 1.0, "p3"), ("s2", "a", 1.0, "d", 1.0, "p3")],
 }
 # single-sample plates for the policy configurations: (sample of plate i)
 SINGLE = {4: ["s1", "s1", "s2", "s2"], 5: ["s1", "s1", "s1", "s2", "s2"], 6: ["s1", "s1", "s2", "s2", "s3", "s1"]}
@@ -51,6 +55,8 @@ def configs(tier, seed):
     for P in ((3, 4) if q else (3, 4, 5, 6)):
         out.append(dict(name="coverage P=%d" % P, h="coverage", P=P, extra_chunks=1 if q else 2))
     out.append(dict(name="coverage P=3 with single-agent wells", h="coverage", P=3, struct="S3", extra_chunks=1))
+    out.append(dict(name="coverage P=4, a condition of its own on every plate, batch ids in either order", h="coverage", P=4, struct="U4",
+                    extra_chunks=0, batch_orders=True, second_round=False))
     for P in ((3,) if q else (3, 4, 5)):
         out.append(dict(name="select P=%d" % P, h="select", P=P, policy=None, neginf=False))
     for P in ((3,) if q else (3, 4)):
@@ -84,7 +90,7 @@ N_GENERATED = 24
 def fixtures(cfg):
     if cfg["h"] == "many":
         return [dict(n_chunks=2, winner=0, sc0=0.3, ord0=1)]
-    v = dict(n_chunks=2, pol_k=2)
+    v = dict(n_chunks=2, pol_k=2, batrev=True)
     for i in range(7):
         v["obs%d" % i] = i == 0
         v["bat%d" % i] = i == 1
@@ -123,6 +129,8 @@ def _setup(ctx, cfg, single=False):
     screen = concrete_screen(ctx, rows, observations=[0.5] * R, mask=[observed[r[5]] for r in rows])
     pid = dict(zip(screen.plate_mapping[0].tolist(), [int(x) for x in screen.plate_mapping[1].tolist()]))
     batch = [pid[p] for i, p in enumerate(pnames) if ctx.is_true(ctx.bool("bat%d" % i))]
+    if cfg.get("batch_orders") and len(batch) >= 2 and ctx.is_true(ctx.bool("batrev")):
+        batch = batch[::-1]  # the ids of the batch plates arrive in the order they were selected, not sorted
     obs_ids = {pid[p] for p in pnames if observed[p]}
     rows_of = {pid[p]: [i for i in range(R) if rows[i][5] == p] for p in pnames}
     return screen, rows, pid, batch, obs_ids, rows_of
@@ -177,6 +185,9 @@ def h_coverage(ctx, cfg):
             ctx.prove(chosen == rows_of[k], "without a batch a candidate is scored on exactly its own experiments")
             continue
         ctx.prove(all(i in union for i in chosen), "with a batch a candidate is scored only on its own and the batch plates' experiments")
+        ctx.prove(all(any(sel[j] for j in union if (sid[j], tuple(tid[j])) == (sid[i], tuple(tid[i]))) for i in union),
+                  "every condition of the candidate and of every batch plate is among the experiments it is scored on",
+                  key="batch conditioning: a batch plate's experiments are missing")
         conds = {}
         for i in union:
             conds.setdefault((sid[i], tuple(tid[i])), []).append(i)
